@@ -93,6 +93,61 @@ Proof. unfold fsumn. apply (bigsum_mul F _ _ _ _ _ _ Rth). Qed.
 Lemma inb3 a b c i j k : i < a -> j < b -> k < c -> inb [a; b; c] [i; j; k].
 Proof. simpl. tauto. Qed.
 
+(* consecutive cores share their bond dimension; l = left bond of the first, r = right bond of the last *)
+Fixpoint bonds (l : nat) (cores : list (tensor F)) (r : nat) : Prop :=
+  match cores with
+  | [] => l = r
+  | G :: cs => nth 0 (shape G) 0 = l /\ bonds (nth 2 (shape G) 0) cs r
+  end.
+
+Lemma bonds_app l A : forall B r, bonds l (A ++ B) r -> exists m, bonds l A m /\ bonds m B r.
+Proof.
+  revert l. induction A as [|G A IH]; intros l B r H.
+  - exists l. split; [reflexivity | exact H].
+  - cbn [app bonds] in *. destruct H as [H1 H2]. destruct (IH _ _ _ H2) as (m & Ha & Hb).
+    exists m. repeat split; assumption.
+Qed.
+
+(* the product of a concatenated chain is the product of the two partial products *)
+Lemma chain_app A : forall l m B a iA iB c, bonds l A m -> a < l -> length iA = length A ->
+  chain Op (A ++ B) a (iA ++ iB) c = fsum m (fun b => chain Op A a iA b *f chain Op B b iB c).
+Proof.
+  induction A as [|G A IH]; intros l m B a iA iB c Hb Ha Hlen.
+  - destruct iA; [|discriminate]. cbn [bonds] in Hb. subst m. cbn [app].
+    rewrite (fsumn_single Op Rth l a).
+    + rewrite (chain_nil Op), Nat.eqb_refl. ring.
+    + exact Ha.
+    + intros b Hb Hne. rewrite (chain_nil Op). destruct (Nat.eqb_spec a b); [exfalso; auto | ring].
+  - destruct iA as [|i iA]; [discriminate|]. cbn [bonds] in Hb. destruct Hb as [Hl Hb].
+    cbn [app]. rewrite (chain_cons Op).
+    transitivity (fsum (nth 2 (shape G) 0) (fun b1 => fsum m (fun b =>
+       gg G [a; i; b1] *f chain Op A b1 iA b *f chain Op B b iB c))).
+    + apply fsumn_ext. intros b1 Hb1.
+      rewrite (IH _ m B b1 iA iB c Hb Hb1) by (simpl in Hlen; lia).
+      rewrite <- (fsumn_scale_l Op Rth). apply fsumn_ext. intros b _. ring.
+    + rewrite (fsumn_exchange Op Rth). apply fsumn_ext. intros b _.
+      rewrite (chain_cons Op). rewrite <- (fsumn_scale_r Op Rth). reflexivity.
+Qed.
+
+(* cyclicity of the trace: rotating the ring of cores together with the index does not change the entry *)
+Theorem tr_entry_rotate A B l m iA iB : A <> [] -> B <> [] -> bonds l A m -> bonds m B l ->
+  length iA = length A -> length iB = length B ->
+  tr_entry Op (B ++ A) (iB ++ iA) = tr_entry Op (A ++ B) (iA ++ iB).
+Proof.
+  intros HA HB Hba Hbb HlA HlB. unfold tr_entry.
+  destruct A as [|GA A']; [contradiction|]. destruct B as [|GB B']; [contradiction|].
+  cbn [app hd].
+  assert (HlGA : nth 0 (shape GA) 0 = l) by (cbn [bonds] in Hba; tauto).
+  assert (HlGB : nth 0 (shape GB) 0 = m) by (cbn [bonds] in Hbb; tauto).
+  rewrite HlGA, HlGB.
+  change (GB :: B' ++ GA :: A') with ((GB :: B') ++ (GA :: A')).
+  change (GA :: A' ++ GB :: B') with ((GA :: A') ++ (GB :: B')).
+  transitivity (fsum m (fun b => fsum l (fun a => chain Op (GB :: B') b iB a *f chain Op (GA :: A') a iA b))).
+  - apply fsumn_ext. intros b Hb. apply (chain_app _ m l); assumption.
+  - rewrite (fsumn_exchange Op Rth). apply fsumn_ext. intros a Ha.
+    rewrite (chain_app _ l m _ a iA iB a Hba Ha HlA). apply fsumn_ext. intros b _. ring.
+Qed.
+
 Variable svd : nat -> tensor F -> @svdans F.
 
 (* the contract of a tensor-ring run on the (rotated) input: the first call keeps every non-zero
@@ -176,21 +231,6 @@ Proof.
 Qed.
 
 (* ------------------------------------------------------------------ bond bookkeeping of the computed cores *)
-(* consecutive cores share their bond dimension; l = left bond of the first, r = right bond of the last *)
-Fixpoint bonds (l : nat) (cores : list (tensor F)) (r : nat) : Prop :=
-  match cores with
-  | [] => l = r
-  | G :: cs => nth 0 (shape G) 0 = l /\ bonds (nth 2 (shape G) 0) cs r
-  end.
-
-Lemma bonds_app l A : forall B r, bonds l (A ++ B) r -> exists m, bonds l A m /\ bonds m B r.
-Proof.
-  revert l. induction A as [|G A IH]; intros l B r H.
-  - exists l. split; [reflexivity | exact H].
-  - cbn [app bonds] in *. destruct H as [H1 H2]. destruct (IH _ _ _ H2) as (m & Ha & Hb).
-    exists m. repeat split; assumption.
-Qed.
-
 Lemma chain_loop_bonds : forall sizes k ranks rk r0 W cores,
   chain_loop Op svd k sizes ranks rk r0 W = Ok cores -> bonds rk cores r0 /\ length cores = length sizes.
 Proof.
@@ -214,46 +254,6 @@ Proof.
   destruct (chain_loop Op svd 1 _ _ _ _ _) as [cs|] eqn:E; [|discriminate].
   cbn [rbind]. intros H. injection H as <-. destruct (chain_loop_bonds _ _ _ _ _ _ _ E) as [Hb Hl].
   cbn [bonds length]. rewrite Hl. split; [|reflexivity]. split; [reflexivity|]. exact Hb.
-Qed.
-
-(* the product of a concatenated chain is the product of the two partial products *)
-Lemma chain_app A : forall l m B a iA iB c, bonds l A m -> a < l -> length iA = length A ->
-  chain Op (A ++ B) a (iA ++ iB) c = fsum m (fun b => chain Op A a iA b *f chain Op B b iB c).
-Proof.
-  induction A as [|G A IH]; intros l m B a iA iB c Hb Ha Hlen.
-  - destruct iA; [|discriminate]. cbn [bonds] in Hb. subst m. cbn [app].
-    rewrite (fsumn_single Op Rth l a).
-    + rewrite (chain_nil Op), Nat.eqb_refl. ring.
-    + exact Ha.
-    + intros b Hb Hne. rewrite (chain_nil Op). destruct (Nat.eqb_spec a b); [exfalso; auto | ring].
-  - destruct iA as [|i iA]; [discriminate|]. cbn [bonds] in Hb. destruct Hb as [Hl Hb].
-    cbn [app]. rewrite (chain_cons Op).
-    transitivity (fsum (nth 2 (shape G) 0) (fun b1 => fsum m (fun b =>
-       gg G [a; i; b1] *f chain Op A b1 iA b *f chain Op B b iB c))).
-    + apply fsumn_ext. intros b1 Hb1.
-      rewrite (IH _ m B b1 iA iB c Hb Hb1) by (simpl in Hlen; lia).
-      rewrite <- (fsumn_scale_l Op Rth). apply fsumn_ext. intros b _. ring.
-    + rewrite (fsumn_exchange Op Rth). apply fsumn_ext. intros b _.
-      rewrite (chain_cons Op). rewrite <- (fsumn_scale_r Op Rth). reflexivity.
-Qed.
-
-(* cyclicity of the trace: rotating the ring of cores together with the index does not change the entry *)
-Theorem tr_entry_rotate A B l m iA iB : A <> [] -> B <> [] -> bonds l A m -> bonds m B l ->
-  length iA = length A -> length iB = length B ->
-  tr_entry Op (B ++ A) (iB ++ iA) = tr_entry Op (A ++ B) (iA ++ iB).
-Proof.
-  intros HA HB Hba Hbb HlA HlB. unfold tr_entry.
-  destruct A as [|GA A']; [contradiction|]. destruct B as [|GB B']; [contradiction|].
-  cbn [app hd].
-  assert (HlGA : nth 0 (shape GA) 0 = l) by (cbn [bonds] in Hba; tauto).
-  assert (HlGB : nth 0 (shape GB) 0 = m) by (cbn [bonds] in Hbb; tauto).
-  rewrite HlGA, HlGB.
-  change (GB :: B' ++ GA :: A') with ((GB :: B') ++ (GA :: A')).
-  change (GA :: A' ++ GB :: B') with ((GA :: A') ++ (GB :: B')).
-  transitivity (fsum m (fun b => fsum l (fun a => chain Op (GB :: B') b iB a *f chain Op (GA :: A') a iA b))).
-  - apply fsumn_ext. intros b Hb. apply (chain_app _ m l); assumption.
-  - rewrite (fsumn_exchange Op Rth). apply fsumn_ext. intros a Ha.
-    rewrite (chain_app _ l m _ a iA iB a Hba Ha HlA). apply fsumn_ext. intros b _. ring.
 Qed.
 
 (* ------------------------------------------------------------------ tensor_ring, every start mode *)
